@@ -18,6 +18,8 @@ func corporaFor(prop, tier string) []*Case {
 	switch prop {
 	case "C01":
 		add(CorpusRandom(seed, tier))
+		add(CorpusRandomGeneric(seed, tier))
+		add(CorpusRandomMulti(seed, tier))
 		add(CorpusCross(seed, tier))
 		add(CorpusTypes(seed, tier))
 		add(CorpusImports(seed, tier))
@@ -28,6 +30,7 @@ func corporaFor(prop, tier string) []*Case {
 		add(CorpusRaw(seed, tier))
 	case "C02":
 		add(CorpusRandom(seed, tier))
+		add(CorpusRandomGeneric(seed, tier))
 		add(CorpusRaw(seed, tier))
 		add(CorpusTypes(seed, tier))
 		add(CorpusGenerics(seed, tier))
@@ -35,11 +38,14 @@ func corporaFor(prop, tier string) []*Case {
 		add(CorpusMulti(seed, tier))
 		add(CorpusImports(seed, tier))
 	case "C09":
+		add(CorpusRandomGeneric(seed, tier))
 		add(CorpusRaw(seed, tier))
 		add(CorpusGenerics(seed, tier))
 		add(CorpusFlags(seed, tier))
 	case "C10":
 		add(CorpusRandom(seed, tier))
+		add(CorpusRandomGeneric(seed, tier))
+		add(CorpusRandomMulti(seed, tier))
 		add(CorpusRaw(seed, tier))
 		add(CorpusTypes(seed, tier))
 		add(CorpusGenerics(seed, tier))
@@ -68,7 +74,10 @@ func corporaFor(prop, tier string) []*Case {
 		add(CorpusFlags(seed, tier))
 		add(CorpusRaw(seed, tier))
 		add(sample(CorpusTypes(seed, tier), 3))
+		add(CorpusRandomGeneric(seed, tier))
+		add(CorpusRandomMulti(seed, tier))
 	case "C20":
+		add(CorpusRandomMulti(seed, tier))
 		add(CorpusRaw(seed, tier))
 		add(CorpusMulti(seed, tier))
 		add(CorpusFlags(seed, tier))
@@ -170,7 +179,7 @@ func EvaluateCases(prop, tag string, cases []*Case, sc *core.Scratch, ev *core.E
 		dropped := 0
 		for _, c := range cases {
 			p := preds[c.ID]
-			if c.DropKF && p != nil && (p.Crash || p.NameDup || p.FieldDup || p.Dup || p.Diverge || p.LateCapture) {
+			if c.DropKF && p != nil && (p.Crash || p.NameDup || p.FieldDup || p.Dup || p.Diverge || p.LateCapture || shadowsTParam(c, p)) {
 				dropped++
 				continue
 			}
@@ -222,7 +231,13 @@ func EvaluateCases(prop, tag string, cases []*Case, sc *core.Scratch, ev *core.E
 		if p != nil && c.Obs.Exit == "ok" && !p.Crash && !namesMatch(p, c.Obs) {
 			drift++
 			if drift <= 3 {
-				rep.DriftNote(fmt.Sprintf("Scope model predicts parameter names %v, moq chose otherwise (%s)", p.Names, c.Origin))
+				var got []string
+				for _, m := range c.Obs.Mocks {
+					for _, me := range m.Methods {
+						got = append(got, me.Name+"("+strings.Join(me.Params, ",")+")")
+					}
+				}
+				rep.DriftNote(fmt.Sprintf("Scope model predicts parameter names %v, moq chose %v (%s)", p.Names, got, c.Origin))
 			}
 		}
 		if p != nil && (p.Diverge || p.Crash) && c.Obs.Exit == "ok" {
@@ -354,7 +369,7 @@ func mentionsSrc(c *Case) bool {
 				continue
 			}
 			for _, tp := range it.TParams {
-				if tp.Constraint == "method" {
+				if tp.Constraint == "method" || tp.Constraint == "localkey" || tp.Constraint == "markerunion" {
 					return true
 				}
 			}
@@ -424,9 +439,6 @@ func autoNames(c *Case, p *Prediction) {
 	}
 	si := -1
 	for _, it := range requested(c) {
-		if len(it.TParams) > 0 {
-			si++
-		}
 		for _, m := range it.Methods {
 			si++
 			if si >= len(p.Names) || len(p.Names[si]) != 1 {
@@ -448,6 +460,9 @@ func autoNames(c *Case, p *Prediction) {
 				}
 				c.Names = append(c.Names, NameRec{Iface: it.Name, Method: m.Name, Index: k, NameCs: cs(q.Name), T: q.T, Judge: true})
 			}
+		}
+		if len(it.TParams) > 0 {
+			si++ // the type-parameter scope follows the methods
 		}
 	}
 	// fill in what came out
